@@ -95,6 +95,13 @@ pub fn gen(rng: &mut Rng, tiny: bool, focus: &str) -> DCfg {
         let start_after = if at_build { 0 } else { rng.below(total) };
         let unsub_after = if (kind <= 1 && rng.chance(2, 3)) || (kind == 2 && rng.chance(1, 3)) { Some(if rng.chance(1, 3) { total } else { rng.range(start_after, total) }) } else { None };
         actors.push(Actor { kind, at_build, start_after, unsub_after, double_unsub: rng.chance(1, 3), cap: rng.range(1, 4) as usize, pol: rng.below(3) as u8, default_api: rng.chance(1, 8), slow: rng.chance(1, 3) });
+        // capacity 0 (a rendezvous channel) under the blocking policy: same random draws as before, one
+        // twelfth of the blocking capacity-4 actors are turned into capacity-0 ones
+        if let Some(a) = actors.last_mut() {
+            if a.kind == 1 && a.pol == POL_BLOCK && a.cap == 4 && a.double_unsub && !a.default_api {
+                a.cap = 0;
+            }
+        }
     }
     // at most one iterator per scenario keeps the rendezvous channels from serialising everything
     let mut seen_iter = false;
@@ -1097,7 +1104,7 @@ pub fn c10(h: &Hist, s: u8, v: &mut Verdicts) {
                     }
                     max_ahead = max_ahead.max(ahead);
                 }
-                if max_ahead >= si.cap as i64 {
+                if si.cap > 0 && max_ahead >= si.cap as i64 {
                     full_seen = true;
                 }
             }
